@@ -1,7 +1,7 @@
 """C12: traceparent / id text codecs -- writer/reader tables agree; fixed widths; error discipline."""
 import re
 
-from .core import Prov, bool_cond_edges, discr_cond_edges, has_origin, origin_strs, root_local, result_switches, const_value
+from .core import Prov, bool_cond_edges, discr_cond_edges, has_origin, origin_strs, root_local, result_switches, const_value, passes_downcast
 from . import panics
 
 ID = "fastrace::collector::id::"
@@ -52,6 +52,11 @@ def rule_writers(ctx, facts, rule):
         fn = ctx.need_fn(facts, path, rule)
         if fn is None:
             continue
+        if not fms:
+            # the format string moved into a helper that the normal form has inlined here: the invocation is found by the source
+            # position of the fmt::Arguments construction
+            at = {fn.term(b).get("span") for b in fn.calls_re(r"core::fmt::Arguments::<'a>::new\w*$", cleanup=False)}
+            fms = [f for f in facts.formats if f["crate"] == "fastrace" and f.get("span") in at]
         if not fms and fname == "serialize":
             # written through the type's own Display: `serializer.serialize_str(&self.to_string())`
             self_ty = path.split(" as ")[0].lstrip("<")
@@ -447,7 +452,16 @@ def rule_error_discipline(ctx, facts, rule):
             n += 1
             dest = fn.term(b)["dest"]["l"]
             users = [fn.term(x)["callee"] for x in fn.calls() for a in fn.term(x)["args"][:1]
-                     if a["k"] in ("copy", "move") and root_local(fn, a)[0] == dest]
+                     if a["k"] in ("copy", "move") and root_local(fn, a)[0] == dest and not passes_downcast(fn, a)]
+            # `match parse { Ok(v) => Ok(..), Err(e) => Err(..) }`: from the Err arm only an Err is returned
+            matched_ok = False
+            for sb in range(len(fn.blocks)):
+                info = fn.switch_info(sb)
+                if info and info.get("kind") == "discr" and info["place"]["l"] == dest and not info["place"]["p"] and not fn.blocks[sb]["cleanup"]:
+                    err = fn.variant_edges(sb, ["Err"])
+                    r = fn.reach([(a_, d_) for a_, d_, _ in err]) if err else set()
+                    rets = [(bb, st_) for bb in r for st_ in fn.blocks[bb]["stmts"] if st_["k"] == "assign" and st_["lhs"]["l"] == 0 and not st_["lhs"]["p"]]
+                    matched_ok = bool(err) and bool(rets) and all(st_["rv"]["k"] == "agg" and st_["rv"].get("variant") == "Err" for _, st_ in rets)
             returned = any(s["k"] == "assign" and s["lhs"]["l"] == 0 and s["rv"]["k"] == "use" and s["rv"]["op"].get("l") == dest
                            for blk in fn.blocks for s in blk["stmts"])
             if p.endswith("decode_w3c_traceparent"):
@@ -460,7 +474,8 @@ def rule_error_discipline(ctx, facts, rule):
                               if a["k"] in ("copy", "move") and root_local(fn, a)[0] == d2]
                         ok = ok and u2 and all(re.search(r"Try>?::branch$", u) for u in u2)
             else:
-                ok = (users and all(re.search(r"Result::<T, E>::(map|map_err|and_then)$", u) for u in users)) or (returned and not users)
+                ok = (users and all(re.search(r"Result::<T, E>::(map|map_err|and_then)$|Try>?::branch$", u) for u in users)) or (returned and not users) \
+                    or (matched_ok and not users)
             ctx.check(bool(ok), rule, p, fn.loc(b),
                       "a failed hexadecimal parse is propagated (ok()? / map / map_err), never unwrapped or defaulted",
                       "consumers %s" % [u.rsplit("::", 1)[1] for u in users], "consumers %s" % users, extra="parse#%d" % n if p.endswith("traceparent") else "parse")
